@@ -389,6 +389,7 @@ def decide(run, items, imports, accept, oracle, known=None, max_reports=5, shard
             run.samples.append({"case": it["case"], "observed": it["obs"], "branch": tag, "accepted": ok})
         if ok:
             continue
+        it["tag"] = tag
         k = known(it) if known else None
         if k:
             run.known(*k)
